@@ -154,8 +154,11 @@ def run_network(check, net, per_class, per_class_mutants):
 		is_abstract = codec.kind(model) == 'Struct' and model.is_abstract
 		encodings = []
 		structured_sources = []
-		for _ in range(per_class):
+		for index in range(per_class + 3):
+			# the first values of every class: all variable-length members empty (twice: both arms of the alternating conditionals), then longest
+			generator.extreme = {0: 'min', 1: 'min', 2: 'max'}.get(index)
 			tree = generator.struct(model, 0) if is_abstract else generator.named(name)
+			generator.extreme = None
 			try:
 				obj = codec.to_object(net, name, tree)
 			except codec.Inadmissible:
@@ -260,7 +263,7 @@ def run(check, unrecognised):
 		check.notes.append(f'anchors not recognised, pinned operators used: {unrecognised["ArrayOps"]}')
 	check.prove('C01.v')
 	codec.setup_paths()
-	per_class, mutants = (4, 8) if check.tier == 'quick' else (60, 150)
+	per_class, mutants = (2, 8) if check.tier == 'quick' else (60, 150)
 	for name in ('symbol', 'nem'):
 		try:
 			net = codec.load_net(name)
